@@ -1,2 +1,25 @@
--- driver stub (replaced when the model for C15 is built)
-def main : IO Unit := pure ()
+/-
+  Driver for C15: runs the generated IFC-67 definitions (t2thermo.py) over `Float`.
+-/
+import PyTough.Gen.Ifc67
+import PyTough.Py.Proto
+open Model.Thermo Gen.Ifc67
+
+def fx := floatOfHex
+def bx (s : String) : Bool := s == "1"
+
+def handle : List String → String
+  | ["cowat", t, p, b] => showRet (cowat (fx t) (fx p) (bx b))
+  | ["supst", t, p, b] => showRet (supst (fx t) (fx p) (bx b))
+  | ["sat", t, b] => showRet (sat (fx t) (bx b))
+  | ["b23p", t] => showRet (b23p (fx t))
+  | ["region", t, p] => showRet (region (fx t) (fx p))
+  | ["visw", t, p, ps] => showRet (visw (fx t) (fx p) (fx ps))
+  | ["viss", t, d] => showRet (viss (fx t) (fx d))
+  | ["tsat_ok", p, b] => if tsat_ok (fx p) (bx b) then "true" else "false"
+  | ["enth", d, u, p] => "num " ++ hexOfFloat (enth (fx d) (fx u) (fx p))
+  | ["ssf", h, one, hl1, hs1, hl2, hs2] =>
+      "num " ++ hexOfFloat (ssf (fx h) (bx one) (fx hl1) (fx hs1) (fx hl2) (fx hs2))
+  | _ => "bad-op"
+
+def main : IO Unit := Py.serve handle
